@@ -8,6 +8,7 @@ pub mod c14;
 pub mod c15;
 pub mod c16;
 pub mod c17;
+pub mod c18;
 pub mod c19;
 pub mod c20;
 
@@ -21,6 +22,7 @@ pub fn run(id: &str, cx: &mut Cx) -> bool {
         "C15" => c15::run(cx),
         "C16" => c16::run(cx),
         "C17" => c17::run(cx),
+        "C18" => c18::run(cx),
         "C19" => c19::run(cx),
         "C20" => c20::run(cx),
         _ => return false,
